@@ -196,7 +196,17 @@ func runC19(r *mc.Run) {
 	if r.Thorough() {
 		bound = 3
 	}
-	r.Explore("tool-invocations", bound, func(c *mc.Ctx) {
+	// the tool exploration runs twice: over all dimensions within the deviation bound, and as the FULL product of the
+	// four network switches (check_crl / get_collateral, config x flag) with every other dimension at its default
+	onlySwitches, idPrefix := false, "tool/"
+	switchDims := map[string]bool{"cfg.check_crl": true, "flag.check_crl": true, "cfg.get_collateral": true, "flag.get_collateral": true}
+	body := func(c *mc.Ctx) {
+		ch := func(name string, n int) int {
+			if onlySwitches && !switchDims[name] {
+				return 0
+			}
+			return c.Choose(name, n)
+		}
 		enc := c.Free("config-encoding", 2)
 		var cfgS, flagS, flagMeaning [14]int
 		for i, f := range fields {
@@ -204,7 +214,7 @@ func runC19(r *mc.Run) {
 			if f.name == "minimum_tee_tcb_svn" || f.rtmr {
 				nCfg = 5 // state 4: an earlier component below the quote's, a later one above it / an empty RTMR entry before a mismatching one
 			}
-			cfgS[i] = c.Choose("cfg."+f.name, nCfg)
+			cfgS[i] = ch("cfg."+f.name, nCfg)
 			if !f.cfgOnly {
 				n := nCfg
 				if f.svn {
@@ -213,23 +223,23 @@ func runC19(r *mc.Run) {
 				if f.rtmr {
 					n = 7 // states 5 / 6: a flag that names some registers and leaves the others empty (unchecked) / all empty
 				}
-				flagS[i] = c.Choose("flag."+f.name, n)
+				flagS[i] = ch("flag."+f.name, n)
 			}
 		}
-		shape := c.Choose("config-shape", len(cfgShapes))
-		crlCfg := c.Choose("cfg.check_crl", 3)
-		crlFlag := c.Choose("flag.check_crl", 4)
-		gcCfg := c.Choose("cfg.get_collateral", 3)
-		gcFlag := c.Choose("flag.get_collateral", 4)
-		in := c.Choose("input", len(inputs))
-		rf := c.Choose("flag.trusted_roots", len(rootFlags))
-		rc := c.Choose("cfg.roots", len(rootCfgs))
-		local := c.Choose("test_local_getter", 2)
+		shape := ch("config-shape", len(cfgShapes))
+		crlCfg := ch("cfg.check_crl", 3)
+		crlFlag := ch("flag.check_crl", 4)
+		gcCfg := ch("cfg.get_collateral", 3)
+		gcFlag := ch("flag.get_collateral", 4)
+		in := ch("input", len(inputs))
+		rf := ch("flag.trusted_roots", len(rootFlags))
+		rc := ch("cfg.roots", len(rootCfgs))
+		local := ch("test_local_getter", 2)
 		// what the tool prints has no bearing on the exit code
-		output := c.Choose("output", 6)
+		output := ch("output", 6)
 		// how a value flag is written has no bearing on its meaning: -name=value, -name value, --name=value
-		form := c.Choose("flag-form", 3)
-		id := "tool/" + c.ID()
+		form := ch("flag-form", 3)
+		id := idPrefix + c.ID()
 		if !r.Want(id) {
 			return
 		}
@@ -555,7 +565,11 @@ func runC19(r *mc.Run) {
 			os.Remove(cfgArg)
 		}
 		r.Eval(id, c.Deviations() > 0, fmt.Sprintf("want%v:%s", al, out))
-	})
+	}
+	r.Explore("tool-invocations", bound, body)
+	onlySwitches, idPrefix = true, "tool-switches/"
+	r.Explore("tool-invocations/network-switches-full-product", 4, body)
+	onlySwitches, idPrefix = false, "tool/"
 
 	// library half: typed errors for fetch failures
 	c19TypedErrors(r)
